@@ -103,19 +103,99 @@ Theorem C20_node_authentic :
                                 same_static (new_edge a cap) e').
 Proof. intros. eapply step_node_authentic; eassumption. Qed.
 
-(* "the node has a known channel": starting from the empty graph, after ANY
-   history of network messages every stored node other than ourselves is an
-   endpoint of a stored channel. *)
+(* "the node has a known channel", over ALL histories of the real event set:
+   gossip messages from the network, blocks connected to the graph Builder
+   (spending any set of funding outputs: PruneGraph), blocks disconnected by a
+   re-org (DisconnectBlockAtHeight), explicit channel deletions with or without
+   zombie marking (DeleteChannelEdges), node sweeps (PruneGraphNodes) and
+   restarts of lnd, for both graph stores ([sweep_always]: KVStore sweeps the
+   unconnected nodes after every connected block, SQLStore only when the block
+   closed a known channel).  [run_events] carries a flag [dirty] = "a channel
+   was removed by a re-org or an explicit deletion and no sweep (sweeping block
+   connect, PruneGraphNodes, restart) has happened since".  Starting from the
+   empty graph, in every reachable state with [dirty = false] every stored
+   node other than ourselves is an endpoint of a stored channel. *)
 Theorem C20_nodes_have_channels :
-  forall cfg verify fund script is_alias (h : list (N * N * msg)) n nd,
-    alookup n (s_nodes (run cfg verify fund script is_alias (init (c_own cfg)) 0 h)) = Some nd ->
+  forall cfg verify fund script is_alias sweep_always (h : list event) st dirty n nd,
+    run_events cfg verify fund script is_alias sweep_always (init (c_own cfg), false) 0 h
+      = (st, dirty) ->
+    dirty = false ->
+    alookup n (s_nodes st) = Some nd ->
     n = c_own cfg \/
-    exists scid e,
-      alookup scid (s_edges (run cfg verify fund script is_alias (init (c_own cfg)) 0 h)) = Some e /\
-      (e_n1 e = n \/ e_n2 e = n).
+    exists scid e, alookup scid (s_edges st) = Some e /\ (e_n1 e = n \/ e_n2 e = n).
 Proof.
-  intros cfg verify fund script is_alias h.
-  apply (run_preserves_inv cfg verify fund script is_alias h). apply init_inv.
+  intros cfg verify fund script is_alias sa h st dirty n nd Hrun Hd.
+  pose proof (run_events_inv cfg verify fund script is_alias sa h _ 0
+                (init_hist_inv cfg)) as Hinv.
+  rewrite Hrun in Hinv. exact (Hinv Hd n nd).
+Qed.
+
+(* accepted node announcement => the node has a known channel: in every state
+   reached by such a history (with every unswept removal followed by a sweep),
+   a node announcement changes the record of node [n] only if it is [n]'s own
+   announcement, strictly newer than the stored one, signed by [n], and [n] is
+   ourselves or an endpoint of a channel stored AT THAT MOMENT. *)
+Theorem C20_node_ann_needs_channel :
+  forall cfg verify fund script is_alias sweep_always (h : list event) st
+         now peer id a st' outs n,
+    run_events cfg verify fund script is_alias sweep_always (init (c_own cfg), false) 0 h
+      = (st, false) ->
+    step cfg verify fund script is_alias now peer id st (MNA a) = (st', outs) ->
+    alookup n (s_nodes st') <> alookup n (s_nodes st) ->
+    na_node a = n /\
+    (exists old, alookup n (s_nodes st) = Some old /\ nd_ts old < na_ts a) /\
+    verify n (na_dg a) (na_sig a) = true /\
+    (n = c_own cfg \/
+     exists scid e, alookup scid (s_edges st) = Some e /\ (e_n1 e = n \/ e_n2 e = n)).
+Proof. intros. eapply node_ann_needs_channel; eassumption. Qed.
+
+(* ... and the clause does NOT hold inside the window ([dirty = true]): the
+   faithful model REFUTES it.  Witness 1 (both stores): a channel enters, its
+   funding block is re-orged out (DisconnectBlockAtHeight does not sweep), a
+   newer valid node announcement of an endpoint arrives -> applied although
+   the graph holds no channel at all.  Witness 2 (SQLStore, sweep_always =
+   false): the same with a connected block that closes no known channel in
+   between.  The harness replays both on the real code (history templates
+   reorg x none / block_empty); see notes/C20.md "orphan window". *)
+Theorem C20_node_ann_channelless_window_refuted :
+  channelless_na_applied true w_hist_kv /\ channelless_na_applied false w_hist_sql.
+Proof. exact window_refuted. Qed.
+
+(* Zombie channels.  (1) A zombie-index entry [ks] that is gone after a message
+   step was removed by a channel update [u] (the message, or a parked update
+   replayed by an accepted announcement) for exactly that scid, on our chain,
+   with a non-zero timestamp, for whose direction a NON-BLANK key is stored in
+   [ks] and whose signature verifies under that stored key.  (2) The keys
+   DeleteChannelEdges(markZombie) stores are, per direction, blank or the key
+   of the node that owns that direction in the deleted channel (never the
+   other party's), at least one direction keeps its owner, and the channel is
+   gone.  Together: a deleted channel is resurrected only by an update signed
+   by the node owning the update's direction. *)
+Theorem C20_zombie_resurrection_authentic :
+  (forall cfg verify fund script is_alias now peer id st m st' outs,
+     step cfg verify fund script is_alias now peer id st m = (st', outs) ->
+     forall scid ks, alookup scid (s_zombies st) = Some ks ->
+       alookup scid (s_zombies st') = None ->
+       exists u, (m = MCU u \/
+                  exists a p, m = MCA a /\ In p (pending_of st (ca_scid a)) /\ pd_upd p = u) /\
+                 cu_scid u = scid /\ cu_chain u = c_chain cfg /\ cu_ts u <> 0 /\
+                 (if N.eqb (dir_of (cu_cf u)) 0 then fst ks else snd ks) <> 0 /\
+                 verify (if N.eqb (dir_of (cu_cf u)) 0 then fst ks else snd ks)
+                        (cu_dg u) (cu_sig u) = true) /\
+  (forall sweep_always own st scid strict e,
+     alookup scid (s_edges st) = Some e ->
+     exists k1 k2,
+       alookup scid (s_zombies (apply_op sweep_always own st (ODelete scid true strict)))
+         = Some (k1, k2) /\
+       (k1 = 0 \/ k1 = e_n1 e) /\ (k2 = 0 \/ k2 = e_n2 e) /\ (k1 = e_n1 e \/ k2 = e_n2 e) /\
+       alookup scid (s_edges (apply_op sweep_always own st (ODelete scid true strict))) = None).
+Proof.
+  split.
+  - intros cfg verify fund script is_alias now peer id st m st' outs H scid ks Hz Hn.
+    destruct (step_zombie_authentic _ _ _ _ _ _ _ _ _ _ _ _ H scid ks Hz Hn)
+      as (u & Hsrc & Hs & Hk & Hv & Hc & Ht).
+    exists u. repeat split; assumption.
+  - intros. now apply delete_zombie_keys.
 Qed.
 
 (* Anything else leaves the graph unchanged and is not relayed:
